@@ -702,6 +702,31 @@ pub fn worker_main(check: &dyn Check, tier: Tier, args: &[String]) -> i32 {
     0
 }
 
+/// enumerate every unit without executing anything and return the number of generated cases per unit
+/// (planning aid for choosing bounds; uses threads, no isolation needed because nothing is executed)
+pub fn count_cases(check: &(dyn Check + Sync), tier: Tier) -> Vec<u64> {
+    let units = check.units(tier);
+    let next = AtomicU64::new(0);
+    let out = Mutex::new(vec![0u64; units as usize]);
+    let n = std::thread::available_parallelism().map(|n| n.get()).unwrap_or(4);
+    std::thread::scope(|sc| {
+        for _ in 0..n {
+            sc.spawn(|| loop {
+                let u = next.fetch_add(1, Ordering::Relaxed);
+                if u >= units {
+                    break;
+                }
+                let mut ctx = Ctx::new(check.id(), None, 0, Mode::Single { unit: u64::MAX, idx: 0 }, Box::new(std::io::sink()));
+                ctx.unit = u;
+                ctx.idx = 0;
+                check.run_unit(tier, u, &mut ctx);
+                out.lock().unwrap()[u as usize] = ctx.idx;
+            });
+        }
+    });
+    out.into_inner().unwrap()
+}
+
 /// run exactly one case in this process (no isolation), twice, and demand identical reports
 pub fn single_case(check: &dyn Check, tier: Tier, unit: u64, idx: u64) -> (Vec<String>, bool) {
     install_panic_hook();
